@@ -8,6 +8,7 @@ import OmplModel.Proofs.RSFive
 import OmplModel.Proofs.RSFiveAll
 import OmplModel.Proofs.RSReach
 import OmplModel.Props.C14RS
+import OmplModel.Props.C14D
 /-!
 # C14 — Dubins curves: the reported path is a shortest candidate, reaches the goal, and `interpolate` drives it
 
